@@ -172,8 +172,7 @@ before the command ran, every input that is BUILT/CONFIRMED at completion has it
 content on disk after the command ran, every output exists, and no `amend` of this run returned
 an unavailable or unfresh input. -/
 theorem success_requires_stable_inputs (sc : Scenario) (h : (executeJob sc).hash.isSome) :
-    sc.cancelledPre = false ∧ sc.cancelledPost = false ∧ sc.rc = 0 ∧
-    sc.amendUnavailable = [] ∧ sc.amendUnfresh = [] ∧
+    sc.cancelledPre = false ∧ sc.cancelledPost = false ∧ sc.rc = 0 ∧ sc.deferCalled = false ∧
     (∀ e ∈ sc.dispatchInputs, diskHash sc.diskPre e.1 = some e.2) ∧
     (∀ e ∈ sc.completionInputs, diskHash sc.diskPost e.1 = some e.2) ∧
     (∀ p ∈ sc.outputs, (diskHash sc.diskPost p).isSome) ∧
@@ -192,12 +191,24 @@ theorem success_requires_stable_inputs (sc : Scenario) (h : (executeJob sc).hash
       · simp only [h3, Bool.false_eq_true, if_false] at h ⊢
         -- the regular completion
         by_cases hin : (changedInputs sc.completionInputs sc.diskPost).isEmpty = true
-        · by_cases hu : sc.amendUnavailable.isEmpty = true ∧ sc.amendUnfresh.isEmpty = true
-          · have hr : runAfterCommand sc = { success := sc.rc == 0 } := by
-              unfold runAfterCommand; simp [hu.1, hu.2]
+        · by_cases hu : sc.deferCalled = true
+          · exfalso
+            have hr : runAfterCommand sc =
+                { success := false, unavailable := sc.amendUnavailable, unfresh := sc.amendUnfresh } := by
+              unfold runAfterCommand; simp [hu]
+            unfold classify at h
+            simp only [hr, hin] at h
+            split at h
+            · simp at h
+            · split at h
+              · simp at h
+              · simp at h
+          · have hu' : sc.deferCalled = false := by simpa using hu
+            have hr : runAfterCommand sc = { success := sc.rc == 0 } := by
+              unfold runAfterCommand; simp [hu']
             by_cases hrc : sc.rc = 0
             · by_cases hout : (missingOutputs sc.outputs sc.diskPost).isEmpty = true
-              · refine ⟨by simpa using h1, by simpa using h3, hrc, List.isEmpty_iff.1 hu.1, List.isEmpty_iff.1 hu.2,
+              · refine ⟨by simpa using h1, by simpa using h3, hrc, hu',
                   changedInputs_nil _ _ (List.isEmpty_iff.1 h2), changedInputs_nil _ _ (List.isEmpty_iff.1 hin),
                   missingOutputs_nil _ _ (List.isEmpty_iff.1 hout), ?_, ?_⟩
                 · simp [classify, hr, hrc, hin, hout]
@@ -206,26 +217,6 @@ theorem success_requires_stable_inputs (sc : Scenario) (h : (executeJob sc).hash
                 simp [classify, hr, hrc, hin, hout] at h
             · exfalso
               simp [classify, hr, hrc, hin] at h
-          · exfalso
-            have hr : runAfterCommand sc =
-                { success := false, unavailable := sc.amendUnavailable, unfresh := sc.amendUnfresh } := by
-              unfold runAfterCommand
-              by_cases ha : sc.amendUnavailable.isEmpty = true
-              · have hb : sc.amendUnfresh.isEmpty = false := by
-                  cases hx : sc.amendUnfresh.isEmpty with
-                  | true => exact absurd ⟨ha, hx⟩ hu
-                  | false => rfl
-                simp [ha, hb]
-              · simp [ha]
-            have hw : (!sc.amendUnavailable.isEmpty || !sc.amendUnfresh.isEmpty) = true := by
-              by_cases ha : sc.amendUnavailable.isEmpty = true
-              · have hb : sc.amendUnfresh.isEmpty = false := by
-                  cases hx : sc.amendUnfresh.isEmpty with
-                  | true => exact absurd ⟨ha, hx⟩ hu
-                  | false => rfl
-                simp [hb]
-              · simp [ha]
-            simp [classify, hr, hin, hw] at h
         · exfalso
           simp [classify, hin] at h
     · simp [h2] at h
@@ -267,7 +258,7 @@ without hash and with `wants_defer`, does not drain, and the report tag is DEFER
 defer cap interrupts. -/
 theorem amend_unavailable_defers (sc : Scenario) (hc : sc.cancelledPre = false)
     (hpre : changedInputs sc.dispatchInputs sc.diskPre = []) (hc2 : sc.cancelledPost = false)
-    (hpost : changedInputs sc.completionInputs sc.diskPost = [])
+    (hpost : changedInputs sc.completionInputs sc.diskPost = []) (hd : sc.deferCalled = true)
     (hu : sc.amendUnavailable ≠ [] ∨ sc.amendUnfresh ≠ []) :
     (executeJob sc).hash = none ∧ (executeJob sc).wantsDefer = true ∧ (executeJob sc).drainUnexpected = false ∧
       tag (executeJob sc) false = "DEFERRED" ∧ tag (executeJob sc) true = "FAIL" := by
@@ -282,9 +273,7 @@ theorem amend_unavailable_defers (sc : Scenario) (hc : sc.cancelledPre = false)
   have hr : runAfterCommand sc =
       { success := false, unavailable := sc.amendUnavailable, unfresh := sc.amendUnfresh } := by
     unfold runAfterCommand
-    have : (sc.amendUnavailable.isEmpty && sc.amendUnfresh.isEmpty) = false := by
-      cases ha : sc.amendUnavailable.isEmpty <;> cases hb : sc.amendUnfresh.isEmpty <;> simp_all
-    simp [this]
+    simp [hd]
   unfold tag executeJob
   simp [hc, hpre, hc2, hpost, classify, hr, hw]
 
